@@ -559,7 +559,10 @@ func (c *Client) SendFor(ctx context.Context, out Outgoing, in Incoming) error {
 			return fmt.Errorf("expected message response %v, but got an error message; "+
 				"however, it failed to unmarshal properly: %w", expT, err)
 		}
-		return fmt.Errorf("expected message response %v, but got an error message: %w", expT, em.LLRPStatus.Err())
+		// An ErrorMessage is an error whatever status it carries (LLRPStatus.Err is nil for Success),
+		// so always expose the reader's status as a *StatusError.
+		se := StatusError(em.LLRPStatus)
+		return fmt.Errorf("expected message response %v, but got an error message: %w", expT, &se)
 	default:
 		return fmt.Errorf("expected message response %v, but got %v", expT, respT)
 	}
